@@ -200,7 +200,8 @@ func cmdCheck(args []string) int {
 	var fails []failure
 	for _, r := range results {
 		if r.Rejected != "" {
-			fails = append(fails, failure{name: r.Key + "/generation", fn: r.Key, status: "rejected", detail: r.Rejected})
+			// no obligation could be generated: the function's replay driver still searches for a failing input
+			fails = append(fails, failure{name: r.Key + "/generation", fn: r.Key, status: "rejected", detail: r.Rejected, con: P.contracts[r.Key]})
 			continue
 		}
 		for _, o := range r.Obls {
